@@ -1,6 +1,7 @@
 package main
 
 import (
+	"regexp"
 	"sort"
 
 	"golang.org/x/tools/go/ssa"
@@ -85,7 +86,35 @@ var arithOps = map[string][]string{
 }
 
 type arithFailure struct {
-	Op, Lisp, Got, Want, Kind string
+	Op, Lisp, Got, Want, Kind, Class string
+}
+
+var modelInt = regexp.MustCompile(`\(- ([0-9]+)\)|\b([0-9]+)\b`)
+
+// modelValues: the integers of the solver models of the refuted bignum clauses (replayed as forced bignums).
+func modelValues(items []*Item) string {
+	seen := map[string]bool{}
+	var out []string
+	for _, it := range items {
+		if !strings.Contains(it.Name, "post@bignum-") || it.Model == "" {
+			continue
+		}
+		for _, line := range strings.Split(it.Model, "\n") {
+			i := strings.LastIndex(line, ")) ")
+			_ = i
+			for _, m := range regexp.MustCompile(`\)\) (\(- [0-9]+\)|[0-9]+)\)`).FindAllStringSubmatch(line, -1) {
+				v := strings.TrimSuffix(strings.TrimPrefix(m[1], "(- "), ")")
+				if strings.HasPrefix(m[1], "(- ") {
+					v = "-" + v
+				}
+				if !seen[v] && len(out) < 12 {
+					seen[v] = true
+					out = append(out, v)
+				}
+			}
+		}
+	}
+	return strings.Join(out, ",")
 }
 
 func runArith(c *Ctx) ([]arithFailure, error) {
@@ -97,6 +126,9 @@ func runArith(c *Ctx) ([]arithFailure, error) {
 	defer os.RemoveAll(scratch)
 	cmd := exec.Command(bin)
 	cmd.Dir = scratch
+	if c.arithExtra != "" {
+		cmd.Env = append(os.Environ(), "ARITH_EXTRA="+c.arithExtra)
+	}
 	out, err := cmd.Output()
 	if err != nil {
 		return nil, err
@@ -112,6 +144,7 @@ func runArith(c *Ctx) ([]arithFailure, error) {
 
 func replayArith(c *Ctx, items []*Item) map[string]*ReplayOutcome {
 	res := map[string]*ReplayOutcome{}
+	c.arithExtra = modelValues(items)
 	fails, err := runArith(c)
 	if err != nil {
 		c.Notes = append(c.Notes, "arith harness: "+err.Error())
@@ -119,6 +152,12 @@ func replayArith(c *Ctx, items []*Item) map[string]*ReplayOutcome {
 	}
 	for _, it := range items {
 		oc := &ReplayOutcome{Harness: "arith", Ran: true}
+		if it.Status == "unknown" || it.Status == "timeout" {
+			// no refutation from the solver: a failure of the same operator elsewhere is not evidence
+			// against this obligation
+			res[it.Name] = oc
+			continue
+		}
 		for _, op := range arithOps[it.Root] {
 			for _, f := range fails {
 				if f.Op != op {
@@ -129,11 +168,20 @@ func replayArith(c *Ctx, items []*Item) map[string]*ReplayOutcome {
 				case strings.HasPrefix(it.Kind, "operand-kept"):
 					match = f.Kind == "mutated"
 				case strings.HasPrefix(it.Kind, "exact"):
-					match = f.Kind == "value"
+					// a wrapped machine integer needs an operand at the edge of the fixnum range
+					match = f.Kind == "value" && f.Class == "edge"
 				case strings.HasPrefix(it.Kind, "safe:div"):
 					match = f.Kind == "fault"
-				case strings.HasPrefix(it.Kind, "fresh-recv"), strings.HasPrefix(it.Kind, "post"):
-					match = true
+				case strings.HasPrefix(it.Kind, "post"):
+					// the failing input must lie inside the clause's precondition
+					switch {
+					case strings.Contains(it.Name, "post@fixnum-"):
+						match = f.Kind == "value" && f.Class == "small"
+					case strings.Contains(it.Name, "post@bignum-"):
+						match = f.Kind == "value" && f.Class == "big"
+					default:
+						match = true
+					}
 				}
 				if match && !oc.Failed {
 					oc.Failed = true
